@@ -68,6 +68,8 @@ def case_key(h, bad):
             return "C19:setvbuf:read-only-handle-refused"
         if step["op"] == "calliter" and step["a"] == "arg":
             return "C19:lines-iterator:argument-used-as-the-file"
+        if step["op"] == "read" and step["a"] == "" and ek == "data" and gk == "data" and bad["got"]["len"] > step["n"]:
+            return "C19:read:count:returns-more-bytes-than-asked"
         if step["op"] == "read" and step["a"] in ("-1", "-5") and gk == "error":
             return "C19:read:negative-count:raises-instead-of-reading-the-rest"
         if step["op"] == "open" and step["a"] in ("r+b", "w+b", "a+b") and ek in ("ok", "fail") and gk == "error":
@@ -246,11 +248,12 @@ def gen_bfs(cfg, depth, timeout=900):
 
 # ---- seeded random proposals (operations only; TLC decides legality and results)
 
-SIZES = [-1, 0, 1, 2, 10, 100, 4000, 4094, 4095, 4096, 4097, 4098, 5000, 8191, 8192, 8193, 9000]
+SIZES = [-1, 0, 1, 2, 10, 100, 4000, 4094, 4095, 4096, 4097, 4098, 5000, 8191, 8192, 8193, 9000,
+         65536, 70000, 131073, 200000]       # far beyond every internal buffer / chunk size (4096, 65536)
 LAYS = [["num", 4], ["num", 2], ["num", 7], ["num", 10], ["per", 37], ["per", 0], ["per", 1], ["per", 2], ["per", 4096], ["per", 4097], ["per", 1000],
         ["crlf", 37], ["crlf", 2], ["crlf", 4097], ["at", 4095], ["at", 4096], ["at", 4094], ["at", 100], ["at", 0]]
-COUNTS = [0, 1, 2, 3, 10, 36, 37, 100, 4000, 4095, 4096, 4097, 5000, 8192, 8193]
-OFFS = [0, 0, 0, 1, -1, 2, -2, 37, -37, 100, -100, 4095, -4095, 4096, -4096, 4097, 5000, -5000, 9000]
+COUNTS = [0, 1, 2, 3, 10, 36, 37, 100, 4000, 4095, 4096, 4097, 5000, 8192, 8193, 65535, 65536, 65537, 70000, 131073]
+OFFS = [0, 0, 0, 1, -1, 2, -2, 37, -37, 100, -100, 4095, -4095, 4096, -4096, 4097, 5000, -5000, 9000, 65536, -65536, 70000, -70000]
 MODES = ["r", "rb", "w", "wb", "a", "ab", "r+", "rb+", "w+", "wb+", "a+", "ab+", "r+b", "w+b", "a+b"]
 UPDATE = ["r+", "w+", "a+", "rb+", "r+", "w+", "tmp", "wb+", "ab+", "r+b", "w+b", "a+b"]
 LONGS = ["", "", "long"]        # "*l" / "*line" ...
@@ -354,7 +357,8 @@ def run(tier):
     slices = [("IoFileGen_modes", 4, "modes"), ("IoFileGen_rw", 4 if thorough else 3, "rw"), ("IoFileGen_lines", 4, "lines"),
               ("IoFileGen_num", 4, "num"), ("IoFileGen_iter", 6, "iter"), ("IoFileGen_buf", 5, "buf"),
               ("IoFileGen_wbuf", 5, "wbuf"), ("IoFileGen_wbuft", 7, "wbuft"),
-              ("IoFileGen_multi", 3, "multi"), ("IoFileGen_svb", 6, "svb")]
+              ("IoFileGen_multi", 3, "multi"), ("IoFileGen_svb", 6, "svb"),
+              ("IoFileGen_huge", 5, "huge") if thorough else ("IoFileGen_hugeq", 4, "huge")]
     if thorough:
         slices.append(("IoFileGen_all", 3, "all"))
         slices.append(("IoFileGen_wbufa", 6, "wbufa"))
@@ -411,7 +415,8 @@ def run(tier):
                     ("wbuf", ["setvbuf", "read", "flush", "write", "peek"]),
                     ("wbuft", ["setvbuf", "read", "flush", "write", "seek"]),
                     ("multi", ["readm", "readm@closed", "readall"]),
-                    ("svb", ["setvbuf", "write", "peek", "close"])):
+                    ("svb", ["setvbuf", "write", "peek", "close"]),
+                    ("huge", ["read", "write", "seek", "peek", "readline"])):
         missing += ["%s:%s" % (tag, k) for k in ks if k not in stats["bytag"].get(tag, ())]
     if missing:
         raise vlib.Infra("generated histories never exercised: %s" % missing)
@@ -426,7 +431,7 @@ def run(tier):
         "random_proposed_ops": stats["proposed_ops"], "random_legal_ops": stats["legal_ops"],
         "distinct_nontrivial": len(distinct),
         "rule": "histories = one per transition of IoFileMC's state graph (BFS, one per (state, depth), single worker) for the constant slices "
-                "modes/rw/lines/num/iter/buf/wbuf/wbuft/multi/svb%s, plus seeded random proposals filtered by Legal; distinct by canonical hash of "
+                "modes/rw/lines/num/iter/buf/wbuf/wbuft/multi/svb/huge%s, plus seeded random proposals filtered by Legal; distinct by canonical hash of "
                 "(initial size, layout, operation list); non-trivial = at least 3 operations" % ("/all/wbufa" if thorough else ""),
         "samples": samples, "mc_runs": mc, "exhaustive": False,
         "rejected_case_keys": dict(sorted(verd.nviol.items())),
